@@ -17,7 +17,7 @@ func judge(r *Ref, o Op, got bool, errStr string, d Dump) (class, msg string) {
 	}
 	late := o.K == "rel" && r.lost[o.L]
 	want, sit := r.apply(o)
-	if (o.K == "acq" || o.K == "rel") && got != want {
+	if (o.K == "acq" || o.K == "rel" || o.K == "acqdead") && got != want {
 		note := ""
 		if late && sit == "held-by-other" {
 			note = " — a late release by an expired holder"
@@ -124,6 +124,8 @@ func alphabet() []Op {
 		}
 	}
 	ops = append(ops, Op{K: "exp", L: "D", S: 1})
+	// Acquire by a non-holder / the holder under a context that has already ended
+	ops = append(ops, Op{K: "acqdead", L: "A"}, Op{K: "acqdead", L: "B"})
 	// a lease of 4 294 968 s (~49.7 days): the smallest whose millisecond value (+500) needs more than 32 bits
 	ops = append(ops, Op{K: "exp", L: "A", S: 4294968})
 	return ops
